@@ -11,6 +11,7 @@ package main
 
 import (
 	"bytes"
+	"context"
 	"database/sql"
 	"encoding/binary"
 	"encoding/json"
@@ -26,6 +27,7 @@ import (
 	"sort"
 	"strings"
 	"sync"
+	"time"
 
 	"github.com/go-spatial/geom"
 	"github.com/go-spatial/geom/cmp"
@@ -369,6 +371,9 @@ func genC13Table(r *rand.Rand, idx int, t tmsInfo, ids []int, kind string, n int
 	spec.Z, spec.M = []int{0, 0, 2}[r.Intn(3)], []int{0, 0, 2}[r.Intn(3)] // prohibited / optional; the features are XY
 	pk := colSpec{Name: "fid", Type: "INTEGER", NotNull: true, PK: 1}
 	nattr := r.Intn(5)
+	if c13WideAttrs > 0 {
+		nattr = c13WideAttrs
+	}
 	if hazard {
 		nattr = 2 // fid + 2 = 3 attribute values: a slice built by append has spare capacity (cap 4)
 	}
@@ -468,6 +473,9 @@ func genC13Target(r *rand.Rand) (string, []string) {
 	return d.d + string(stem) + ext, d.mk
 }
 
+// c13WideAttrs > 0: genC13Table makes that many attribute columns (set only while a "wide bulk" case is generated)
+var c13WideAttrs int
+
 func genC13Case(r *rand.Rand, id int, class string) c13Case {
 	tmss := c13Tms()
 	t := tmss[r.Intn(len(tmss))]
@@ -505,6 +513,21 @@ func genC13Case(r *rand.Rand, id int, class string) c13Case {
 		k.PageSize = 1
 		k.Ignore = true
 		k.Tables = []c13Table{genC13Table(r, 0, t, k.Ids, "polygon", 150+r.Intn(100), false, true)}
+		return k
+	case "wide bulk":
+		// a wide attribute table (33-44 columns) of several hundred rows at the DEFAULT page size: one page carries about
+		// as many values as SQLite binds in one statement (32766), half of the cases below and half above that number
+		k.PageSize, k.Ignore = 0, true
+		k.Ids = append([]int{}, perm[:2]...)
+		b, _ := json.Marshal(k.Ids)
+		k.IdsArg = string(b)
+		c13WideAttrs = 33 + r.Intn(12)
+		n := (30000 + r.Intn(6000)) / (c13WideAttrs + 2)
+		if n > 999 {
+			n = 999
+		}
+		k.Tables = []c13Table{genC13Table(r, 0, t, k.Ids, "point", n, false, false), genC13Table(r, 1, t, k.Ids, "point", 2, false, false)}
+		c13WideAttrs = 0
 		return k
 	case "invalid tms":
 		switch r.Intn(4) {
@@ -940,12 +963,27 @@ func runC13Case(scratch, bin, binRace string, k c13Case) (run c13Run, err error)
 	if k.Race && binRace != "" {
 		exe = binRace
 	}
-	cmd := exec.Command(exe, args...)
+	ctx, cancel := context.WithTimeout(context.Background(), 120*time.Second)
+	defer cancel()
+	cmd := exec.CommandContext(ctx, exe, args...)
 	cmd.Dir = rundir
 	var stderr bytes.Buffer
 	cmd.Stderr = &stderr
 	cmd.Env = append(os.Environ(), "GORACE=halt_on_error=1 exitcode=66")
+	// the tool on a machine with few cores (a small container): every third run gets one or two threads, so that fewer
+	// threads than requested tile matrices is an ordinary situation here
+	switch k.ID % 6 {
+	case 1:
+		cmd.Env = append(cmd.Env, "GOMAXPROCS=1")
+	case 4:
+		cmd.Env = append(cmd.Env, "GOMAXPROCS=2")
+	}
 	runErr := cmd.Run()
+	if ctx.Err() != nil {
+		run.Exit = 124
+		run.Stderr = "the tool did not exit within 120 s and was killed (hang)\n" + stderr.String()
+		runErr = nil
+	}
 	if runErr != nil {
 		if ee, ok := runErr.(*exec.ExitError); ok {
 			run.Exit = ee.ExitCode()
@@ -953,7 +991,9 @@ func runC13Case(scratch, bin, binRace string, k c13Case) (run c13Run, err error)
 			return run, runErr
 		}
 	}
-	run.Stderr = stderr.String()
+	if run.Exit != 124 {
+		run.Stderr = stderr.String()
+	}
 	if len(run.Stderr) > 1200 {
 		run.Stderr = run.Stderr[len(run.Stderr)-1200:]
 	}
@@ -1435,6 +1475,9 @@ func runC13(c *hc.Ctx) error {
 				cl = classes[i]
 			}
 			cases = append(cases, genC13Case(c.Rng, len(cases), cl))
+		}
+		for i := 0; i < c.N(2, 12); i++ {
+			cases = append(cases, genC13Case(c.Rng, len(cases), "wide bulk"))
 		}
 		for i := 0; i < c.N(2, 20); i++ {
 			k := genC13Case(c.Rng, len(cases), "hazard")
